@@ -56,7 +56,9 @@ VARIABLES
 
 pvars == <<lsn, att, natt, ep, synSeen, accd, flow, drops, premOk, apark, idle, ok>>
 
-NoAtt == [st |-> "none", port |-> 0, sawUp |-> FALSE, sawDown |-> FALSE, full |-> FALSE]
+\* gone: the attempt ended without a stream (cancelled / refused / timed out) and the wire has been
+\* quiescent since, so whatever it left at the listener has run out of retransmits and is gone
+NoAtt == [st |-> "none", port |-> 0, sawUp |-> FALSE, sawDown |-> FALSE, full |-> FALSE, gone |-> FALSE]
 \* pend = bytes this endpoint wrote (accepted by try_write) that its peer has not read yet,
 \* nw = how many it wrote in all.  Bytes are retired from pend as the peer reads them, so
 \* "the bytes read are a prefix of the bytes written" is checked read by read (ok.prefix).
@@ -152,7 +154,7 @@ P_DropListener(obs) ==
     /\ UNCHANGED <<natt, ep, synSeen, accd, flow, drops, premOk, apark>>
 
 \* attempts that may occupy the listener's backlog: started and not (yet) accepted
-Unaccepted(c) == att[c].st # "none" /\ (att[c].port = 0 \/ ~InSeq(att[c].port, accd))
+Unaccepted(c) == att[c].st # "none" /\ ~att[c].gone /\ (att[c].port = 0 \/ ~InSeq(att[c].port, accd))
 
 \* TcpStream::connect started (first poll done); c = index of the attempt
 P_ConnectStart(c, obs) ==
@@ -161,7 +163,7 @@ P_ConnectStart(c, obs) ==
     /\ LET others == Cardinality({x \in Ports : Unaccepted(x)}) IN
        att' = [x \in Ports |->
                  IF x = c THEN [st |-> "pending", port |-> 0, sawUp |-> lsn.st = "up",
-                                sawDown |-> lsn.st # "up", full |-> others >= Backlog]
+                                sawDown |-> lsn.st # "up", full |-> others >= Backlog, gone |-> FALSE]
                  ELSE IF att[x].st = "pending" /\ others >= Backlog THEN [att[x] EXCEPT !.full = TRUE]
                  ELSE att[x]]
     /\ idle' = 0
@@ -349,7 +351,14 @@ P_Egress(pk, wlen, maxage, obs) ==
                                 Cardinality({c \in Ports : att[c].st = "ok" /\ ~att[c].sawDown
                                                             /\ ~InSeq(att[c].port, accd)}) <= obs.lq),
              !.tab = @ /\ ((idle2 >= R /\ premOk') => TablesIn(obs))]
-    /\ UNCHANGED <<lsn, att, natt, ep, accd, flow, drops, apark>>
+       \* C13 "cancelling a pending connect must not let stale state swallow later connections":
+       \* once the wire has been quiescent, an attempt that ended without a stream no longer
+       \* occupies backlog room
+       /\ att' = IF idle2 >= R
+                 THEN [c \in Ports |-> IF att[c].st \in {"cancelled", "refused", "timedout"}
+                                       THEN [att[c] EXCEPT !.gone = TRUE] ELSE att[c]]
+                 ELSE att
+    /\ UNCHANGED <<lsn, natt, ep, accd, flow, drops, apark>>
 
 \* the wire hands packet p (kept for `age` rounds) to its destination host
 P_Deliver(p, age, obs) ==
